@@ -48,7 +48,7 @@ CHECKS = {
         "DESIGN.md section 3 C04",
     ),
     "C05": (
-        "Hypothesis PBT over generated programs (expression trees realised as formula strings, composition-API calls and FormulaBuilder tokens) against an exact Fraction evaluator",
+        "Hypothesis PBT over generated programs (expression trees realised as formula strings - half of them through the engine pool after similar decoy formulas -, composition-API calls and FormulaBuilder tokens) against an exact Fraction evaluator",
         "A compiler-correctness style check: random expression trees are compiled by the real tokenizer / shunting yard / "
         "composition API, run as real engines on a virtual-time loop, and compared per timestamp with exact rational evaluation "
         "under conventional precedence and associativity. Exploration level.",
@@ -166,7 +166,7 @@ CHECKS = {
 }
 
 CHECKS["C19"] = (
-    "Hypothesis PBT over fault scripts x delivery schedules for a real generated PV formula with fallback; the harness plays the resampling actor and owns validity, delivery order, fallback lag and stream closing",
+    "Hypothesis PBT over fault scripts x delivery schedules for a real generated PV formula with fallback; the harness plays the resampling actor and owns validity, delivery order, fallback lag, stream closing and transient receive errors on primary and fallback",
     "Per tick every primary meter and fallback inverter is valid or missing, fallback samples arrive before/after/late, a primary "
     "stream may be closed; source-identifying values make every output attributable to primary or fallback and to a tick. The "
     "start-up delay after the first failure is checked to be bounded. A wall-clock watchdog turns an engine that spins without "
